@@ -83,7 +83,8 @@ Report(o, i, p, gs) == \A k \in 1..Len(gs) : gs[k][1] \/ PrintT(<<"VIOL", o.id, 
 C05Guards(o) ==
     LET allowed == TC!Choose(o.case) IN
     << <<\E out \in allowed : TC!FramingOK(out, o), "FramingHeaders">>,
-       <<(\E out \in allowed : TC!FramingOK(out, o)) => (o.bodycoding \in allowed \/ o.bodycoding = "nobody"), "BodyCoding">> >>
+       \* the body is coded as the headers say (a body that is not validly coded at all is C04's business)
+       <<(o.bodycoding \in {"identity", "chunked"}) => o.bodycoding \in allowed, "BodyCoding">> >>
 
 CheckObs ==
     LET Obs == ObsOf(ObsFile) IN
